@@ -11,7 +11,7 @@ from .common import hx, unhx
 
 ID = 'C07'
 GEN_DEPS = []
-RULE = ('24 handler signatures (one param of each of the 10 integer types, String, &str, Cow, two-param tuples, a param under a param mount, Query, JSON, Option<JSON>, URLEncoded, Text, param+Query+JSON, two optional bodies) x '
+RULE = ('37 handler signatures covering every IntoHandler shape (one param of each of the 10 integer types, String, &str, Cow, two-param tuples, a param under a param mount, Query, JSON, Option<JSON>, URLEncoded, Text, param+Query+JSON, two optional bodies) x '
         'requests: segments with digits plus garbage, signs, leading zeros, values at and beyond every width, percent-encoded and non-UTF-8 segments, matching / near-miss / mismatching / missing Content-Type, '
         'valid and invalid bodies and queries; non-trivial = a boundary numeral, an escape in a segment, a near-miss media type or an invalid body')
 ASSUMPTIONS = ['with mounts the i-th declared parameter is the i-th capture of the full route (the repository\'s own test check_path_params_counted_accumulatedly)',
@@ -136,14 +136,17 @@ def decode_item(kind, data):
 
 
 SIGS = {10: ['String'], 11: ['str'], 12: ['Cow'], 13: ['u8', 'String'], 14: ['i64', 'str']}
+# every shape of IntoHandler: the param form ('T1' = a one-tuple argument, 'B1' = a bare param, 'T2' = a two-tuple argument, '' = none) x 1..4 extractor items
+COMBO = {30: ('T1', 1), 31: ('T1', 2), 32: ('T1', 3), 33: ('T1', 4), 34: ('B1', 1), 35: ('B1', 3), 36: ('B1', 4), 37: ('T2', 1), 38: ('T2', 2), 39: ('T2', 3), 40: ('T2', 4), 41: ('', 3), 42: ('', 4)}
+LAY = {1: [('query', False)], 2: [('query', False), ('json', False)], 3: [('query', False), ('json', False), ('text', True)], 4: [('query', False), ('json', False), ('form', True), ('text', True)]}
 
 
 def mk(rng, sig=None):
-    sig = rng.choice(list(range(0, 21)) + [22, 23]) if sig is None else sig
+    sig = rng.choice(list(range(0, 21)) + [22, 23] + list(COMBO)) if sig is None else sig
     headers, body, method, items, q = [], None, 'GET', [], ''
     if sig in INT:
         name, bits, signed = INT[sig]
-        segs = [seg_int(rng, bits, signed)]; ptys = [name]; target = '/p%d/%s' % (sig, segs[0])
+        segs = [seg_int(rng, bits, signed)]; ptys = [name]; target = ('/q/p%d/%s' if sig in (8, 9) else '/p%d/%s') % (sig, segs[0])
     elif sig in SIGS:
         ptys = SIGS[sig]
         segs = [(seg_int(rng, 8 if t == 'u8' else 64, t == 'i64') if t in ('u8', 'i64') else seg_str(rng)) for t in ptys]
@@ -152,10 +155,14 @@ def mk(rng, sig=None):
         ptys = ['u8']; segs = [seg_int(rng, 8, False), seg_str(rng)]; target = '/m/%s/x/%s' % (segs[0], segs[1])
     else:
         ptys, segs = [], []
-        layout = {15: [('query', False)], 16: [('json', False)], 17: [('json', True)], 18: [('form', False)], 19: [('text', False)], 20: [('query', False), ('json', False)], 23: [('form', True), ('text', True)]}[sig]
-        method = 'GET' if sig == 15 else 'POST'
-        target = '/t/p%d' % sig
+        layout = LAY[COMBO[sig][1]] if sig in COMBO else {15: [('query', False)], 16: [('json', False)], 17: [('json', True)], 18: [('form', False)], 19: [('text', False)], 20: [('query', False), ('json', False)], 23: [('form', True), ('text', True)]}[sig]
+        method = 'GET' if layout == [('query', False)] else 'POST'
+        target = (('/q/u/c%d' if sig < 37 else '/q/w/c%d') if sig in COMBO else '/t/p%d') % sig
         if sig == 20: ptys = ['u8']; segs = [seg_int(rng, 8, False)]; target += '/' + segs[0]
+        if sig in COMBO and COMBO[sig][0]:
+            ptys = ['u8', 'String'] if COMBO[sig][0] == 'T2' else ['u8']
+            segs = [seg_int(rng, 8, False)] + ([seg_str(rng)] if len(ptys) == 2 else [])
+            target += '/' + '/'.join(segs)
         bkind = next((k for k, _ in layout if k != 'query'), None)
         ct = None
         if bkind:
@@ -176,7 +183,7 @@ def mk(rng, sig=None):
     tb = target.encode() + (b'?' + q.encode() if q else b'')
     if segs is None:          # re-read the captures from the (re-encoded) target
         parts = target.split('/')
-        segs = [parts[2]] if sig in INT else parts[3:] if sig in SIGS else [parts[2], parts[4]] if sig == 22 else [parts[3]] if sig == 20 else []
+        segs = [parts[3] if sig in (8, 9) else parts[2]] if sig in INT else parts[4:] if sig in COMBO else parts[3:] if sig in SIGS else [parts[2], parts[4]] if sig == 22 else [parts[3]] if sig == 20 else []
         segs = segs[:2]
     caps = [s.encode().hex() for s in segs][:len(ptys)] if sig != 22 else [segs[0].encode().hex()]
     return {'case': {'sig': sig, 'method': method, 'target': tb.hex(), 'headers': [[hx(k), hx(v)] for k, v in headers], 'body': body.hex() if body else None,
@@ -188,7 +195,7 @@ def corpus():
     rng = random.Random(7)
     W = []
     for sig, seg in [(0, '12abc'), (0, '256'), (6, '18446744073709551617'), (0, '%31'), (11, '%41'), (10, '%FF'), (1, '-128'), (1, '-129'), (0, '-0'), (0, '+7')]:       # was: 12abc -> 12, overflow wrap
-        c = mk(rng, sig)['case']; c['target'] = (('/p%d/' % sig if sig < 10 else '/t/p%d/' % sig) + seg).encode().hex(); c['captures'] = [seg.encode().hex()]; W.append({'case': c})
+        c = mk(rng, sig)['case']; c['target'] = (('/q/p%d/' % sig if sig in (8, 9) else '/p%d/' % sig if sig < 10 else '/t/p%d/' % sig) + seg).encode().hex(); c['captures'] = [seg.encode().hex()]; W.append({'case': c})
     for ct in ['application/jsonx', 'application/json', 'application/json; charset=utf-8', 'application/json-patch+json', None]:                                       # was: prefix match
         c = mk(rng, 16)['case']; body = b'{"x":1,"s":"a"}'
         c['headers'] = [[hx('Content-Type'), hx(ct)]] if ct else []; c['body'] = body.hex()
